@@ -152,6 +152,8 @@ def size_class(n):
         return "n<=64"
     if n <= 512:
         return "n<=512"
+    if n > 50000:
+        return "n>50000"
     return "n>512"
 
 
